@@ -27,6 +27,20 @@ using namespace Tins;
 #define ABSTRACT(X) X(EAPOL) X(Dot11ManagementFrame) X(Dot11Control) X(Dot11ControlTA)
 #define ALLT(X) CONCRETE(X) ABSTRACT(X)
 
+// classes a USER defines (flags USER_DEFINED_PDU + n): "every layer class T a user can ask for" includes them.  No shipped
+// class is one of them, so no shipped object may answer to their flags - whatever number n is
+template <int N> class UserPDU : public PDU {
+public:
+    static const PDU::PDUType pdu_flag;
+    UserPDU() {}
+    UserPDU* clone() const { return new UserPDU<N>(*this); }
+    uint32_t header_size() const { return 2; }
+    PDUType pdu_type() const { return pdu_flag; }
+    void write_serialization(uint8_t* data, uint32_t) { data[0] = 0x55; data[1] = (uint8_t)N; }
+};
+template <int N> const PDU::PDUType UserPDU<N>::pdu_flag = static_cast<PDU::PDUType>(PDU::USER_DEFINED_PDU + N);
+static const int NUSER = 80;       // n = 0 .. 79: beyond the largest flag a shipped class has
+
 struct Obj { std::string label, cls; PDU* root; PDU* k; PDU* wrapped; };   // wrapped: for PDUCacher<X> objects, an X (else 0)   // k = the object of class K inside root's chain
 static std::vector<Obj> OBJS;
 
@@ -90,6 +104,16 @@ static void specials() {
     { Dot11Ack ak; (void)ak.find_pdu<Dot11Ack>(); (void)tins_cast<Dot11Ack*>(static_cast<PDU*>(&ak)); Dot11* d = new Dot11(ak); add("Dot11#sliced_copy_of_used_ack", "Dot11", d, d); }
     { EthernetII e = EthernetII() / IP("1.2.3.4", "4.3.2.1") / TCP(1, 2) / RawPDU("u"); (void)e.find_pdu<TCP>(); (void)e.find_pdu<RawPDU>(); (void)e.rfind_pdu<IP>(); PDU* c = e.clone(); add("EthernetII#clone_of_used_chain", "EthernetII", c, c);
       PDU* i = e.rfind_pdu<IP>().clone(); add("IP#clone_of_used_inner", "IP", i, i); TCP* t = new TCP(e.rfind_pdu<TCP>()); add("TCP#copy_of_used_inner", "TCP", t, t); }
+    // RawPDU objects that hold no bytes: built empty, emptied after a look-up, moved from
+    { RawPDU* r = new RawPDU(""); add("RawPDU#empty", "RawPDU", r, r); }
+    { RawPDU* r = new RawPDU((const uint8_t*)"", 0); add("RawPDU#zero_length_buffer", "RawPDU", r, r); }
+    { RawPDU* r = new RawPDU("full"); (void)r->find_pdu<RawPDU>(); r->payload().clear(); add("RawPDU#emptied_after_lookup", "RawPDU", r, r); }
+    { RawPDU* r = new RawPDU("moved"); RawPDU* r2 = new RawPDU(std::move(*r)); add("RawPDU#moved_from", "RawPDU", r, r); add("RawPDU#moved_to", "RawPDU", r2, r2); }
+    { EthernetII* e = new EthernetII(); IP* i = new IP("1.2.3.4", "4.3.2.1"); UDP* u = new UDP(1, 2); RawPDU* r = new RawPDU(""); e->inner_pdu(i); i->inner_pdu(u); u->inner_pdu(r); add("RawPDU#empty_at_the_end_of_a_chain", "RawPDU", e, r); }
+    // objects of user-defined classes, alone and inside a chain of shipped classes
+    { UserPDU<3>* u = new UserPDU<3>(); add("UserPDU<3>#alone", "UserPDU<3>", u, u); }
+    { UserPDU<28>* u = new UserPDU<28>(); add("UserPDU<28>#alone", "UserPDU<28>", u, u); }
+    { EthernetII* e = new EthernetII(); IP* i = new IP("1.2.3.4", "4.3.2.1"); UserPDU<0>* u = new UserPDU<0>(); e->inner_pdu(i); i->inner_pdu(u); u->inner_pdu(new RawPDU("below")); add("UserPDU<0>#inside_chain", "UserPDU<0>", e, u); }
     // wrapper inside a chain
     { CUR_WRAPPED = new IP(); EthernetII* e = new EthernetII(); PDUCacher<IP>* c = new PDUCacher<IP>(IP("1.2.3.4", "4.3.2.1") / TCP(1, 2)); e->inner_pdu(c); c->inner_pdu(new RawPDU("after")); add("PDUCacher<IP>#inside_chain", "PDUCacher<IP>", e, c); }
 }
@@ -120,11 +144,14 @@ template <class T> static void probe(const Obj& o, const char* tname, vh::Out& o
     w.key("chain").A(); for (size_t i = 0; i < chain.size(); ++i) w.v((long)chain[i]->pdu_type()); w.E();
     w.E(); out.event(w); out.end();
 }
+template <int N> struct ProbeUsers { static void run(const Obj& o, vh::Out& out) { ProbeUsers<N - 1>::run(o, out); std::string n = "UserPDU<" + std::to_string(N) + ">"; probe<UserPDU<N> >(o, n.c_str(), out); } };
+template <> struct ProbeUsers<-1> { static void run(const Obj&, vh::Out&) {} };
 static void scenario(const vh::Json& sc, vh::Out& out, vh::Rng&, const vh::Args&) {
     if (OBJS.empty()) build_all();
     size_t i = (size_t)sc["k"].num(); if (i >= OBJS.size()) return;
     const Obj& o = OBJS[i];
 #define P(T) probe<T >(o, #T, out);
     ALLT(P)
+    ProbeUsers<NUSER - 1>::run(o, out);
 }
 int main(int argc, char** argv) { return vh::run(argc, argv, scenario); }
